@@ -372,7 +372,10 @@ func (w *Worker) runCase(c *Case, f func(c *Case)) {
 	if b1 && b2 && stripAddrs(d1) == stripAddrs(d2) {
 		c.Violation("hang:"+hangSite(d2), "case did not finish and every goroutine is parked (deadlock)\n%s", d2)
 	} else {
-		w.Inconclusive(fmt.Sprintf("case %s#%d exceeded %v without a deadlocked dump: %s", c.Group, c.Index, to, c.desc))
+		c.mu.Lock()
+		desc := c.desc
+		c.mu.Unlock()
+		w.Inconclusive(fmt.Sprintf("case %s#%d exceeded %v without a deadlocked dump: %s", c.Group, c.Index, to, desc))
 	}
 	// The worker cannot continue with leaked goroutines in an unknown state.
 	w.finish(false)
